@@ -1,5 +1,5 @@
 """C12 - bookmarks resume exactly; stale/foreign bookmarks rejected; tails exact."""
-import vlib, watchlib
+import vlib, watchlib, inmemlib
 
 
 def run(ctx):
@@ -13,7 +13,7 @@ def run(ctx):
     configs = [watchlib.RING_CONFIGS[i] for i in ((1, 2, 5) if quick else range(6))]
     groups = watchlib.gen_groups(ctx, configs, 25 if quick else 250, 36 if quick else 50)
     ctx.cov["behaviours_replayed"] = sum(len(g["behs"]) for g in groups)
-    files = watchlib.drive(ctx, groups, extras=True, name="c12")
+    files = watchlib.drive(ctx, groups, extras=True, name="c12", hook_prop="C12")
     total, rej = watchlib.judge(ctx, groups, files)
     ctx.cov["traces_validated_against_impl"] += total
     recs = vlib.read_ndjson(files[0])
@@ -29,6 +29,8 @@ def run(ctx):
         key = "%s/%s/%s" % (r["what"], r["record"].get("ev"), r["record"].get("mode", ""))
         ctx.violation(key, "ring %s: %s at line %d: %s" % (r["config"], r["what"], r["line"], r["detail"]), r)
     watchlib.selftest(ctx, groups, files, {r["tid"] for r in rej})
+    # the repository's own test suites with the hooks on: every watch start, ring read and hand-off they cause is judged
+    inmemlib.stage(ctx, "C12", ctx.tier)
     ctx.assumptions += [
         "a foreign incarnation is a bookmark whose cookie was minted by another process (child run of the harness)",
         "tail requests are not combined with selectors (the statement does not say how they compose)",
